@@ -1085,6 +1085,17 @@ class StateEngine(object):
                     parent_terminated = parent_branch_results.get("terminated")
                     parent_results = parent_branch_results.get("results")
                     parent_index = parent_info["Index"]
+                """
+                Map and Parallel states may be nested more than two deep, so
+                also check the states enclosing the parent: termination of
+                any of them terminates every Branch nested below it.
+                """
+                for info in reversed(branch_info_stack[:-2]):
+                    if parent_terminated:
+                        break
+                    enclosing_results = all_branch_results.get(info["ID"])
+                    if enclosing_results:
+                        parent_terminated = enclosing_results.get("terminated")
 
             # Get the item at the top of the Branch metadata stack
             branch_info = branch_info_stack[-1]
@@ -1154,7 +1165,12 @@ class StateEngine(object):
                 """
                 if parent_terminated and not terminated:
                     #print("Terminating parent branch {}".format(parent_index))
-                    parent_results[parent_index] = "__TERMINATED__"
+                    for info in reversed(branch_info_stack[:-1]):
+                        enclosing_results = all_branch_results.get(info["ID"])
+                        if enclosing_results:
+                            enclosing_results["results"][info["Index"]] = "__TERMINATED__"
+                            if enclosing_results.get("terminated"):
+                                break
 
                 #print(self.branch_metadata)
                 #print()
